@@ -1,5 +1,5 @@
-(* RtTheorems.v — C01 and C02 for whole runs of accepted programs, linear connective fragment,
-   asynchronous mode.  The three Section hypotheses are the interfaces to the other parts of the
+(* RtTheorems.v — C01 and C02 for whole runs of accepted closed programs: every form, the two
+   polarized modes.  The three Section hypotheses are the interfaces to the other parts of the
    development (they are discharged there or remain open — see lib/manifest.d/C01.json):
 
      teq_ok                : the type equality of spec/TypEq.v satisfies `teq_laws` on the type
